@@ -256,9 +256,53 @@ fn bits_of(mp: &MP) -> Vec<Vec<Vec<(u64, u64)>>> {
     mp.0.iter().map(|p| std::iter::once(p.exterior()).chain(p.interiors().iter()).map(|r| r.0.iter().map(|c| (c.x.to_bits(), c.y.to_bits())).collect()).collect()).collect()
 }
 
+/// the first cases a process evaluates, with their results: re-evaluated at the very end of the run ("regardless of
+/// what was computed before")
+static C12_REFERENCE: std::sync::Mutex<Vec<(MP, MP, Vec<Vec<Vec<Vec<(u64, u64)>>>>)>> = std::sync::Mutex::new(Vec::new());
+
+pub fn c12_recheck() -> Result<usize, Failure> {
+    let refs = C12_REFERENCE.lock().unwrap();
+    for (a, b, want) in refs.iter() {
+        for (k, &op) in OPS.iter().enumerate() {
+            let r = run_mm(a, b, op).map_err(|p| panic_failure(op_name(op), &p))?;
+            if bits_of(&r) != want[k] {
+                return Err(Failure::new(
+                    "nondeterministic",
+                    format!("{} of A = {} and B = {} returned {} at the end of the run, but something else when it was first computed at the start of the process", op_name(op), mp_to_text(a), mp_to_text(b), mp_to_text(&r)),
+                ));
+            }
+        }
+    }
+    Ok(refs.len())
+}
+
 /// histories of calls over a pool of operands; placement 0 = this thread, 1 = fresh thread, 2 = batch of 8 threads
 pub fn c12(case: &Case, obs: &mut Obs) -> Result<(), Failure> {
     use std::collections::HashMap;
+    // inexact families: use the operands rounded to f32 values (re-validated), so that calls in both precisions can be
+    // made on identical coordinates whose crossing points are representable in neither
+    let rounded;
+    let case = if !case.exact {
+        match f32_case(case) {
+            Some(c) => {
+                rounded = c;
+                &rounded
+            }
+            None => case,
+        }
+    } else {
+        case
+    };
+    {
+        let mut refs = C12_REFERENCE.lock().unwrap();
+        if refs.len() < 48 && !boxes_disjoint(&mp_edges(&case.a), &mp_edges(&case.b)) {
+            let mut res = Vec::new();
+            for op in OPS {
+                res.push(bits_of(&run_mm(&case.a, &case.b, op).map_err(|p| panic_failure(op_name(op), &p))?));
+            }
+            refs.push((case.a.clone(), case.b.clone(), res));
+        }
+    }
     // the pool: the three operands of the case, an empty operand, and two derived ones
     let mut pool: Vec<MP> = vec![case.a.clone(), case.b.clone(), case.c.clone(), MultiPolygon(vec![])];
     pool.push(MultiPolygon(case.a.0.iter().chain(case.c.0.iter().take(0)).cloned().collect()));
@@ -276,7 +320,10 @@ pub fn c12(case: &Case, obs: &mut Obs) -> Result<(), Failure> {
         s
     };
     let len = 20 + (next() % 41) as usize;
-    let calls: Vec<(usize, usize, usize, u64)> = (0..len).map(|_| ((next() % 4) as usize, (next() % n) as usize, (next() % n) as usize, next() % 3)).collect();
+    let calls: Vec<(usize, usize, usize, u64)> = (0..len).map(|_| ((next() % 4) as usize, (next() % n) as usize, (next() % n) as usize, next() % 4)).collect();
+    // placement 3: the same call is first made in single precision on this thread (operands representable in f32)
+    let f32_ok = pool.iter().all(f32_representable);
+    let mut memo32: HashMap<(usize, usize, usize), MP> = HashMap::new();
     // equal operands (whatever their allocation) must give equal results: key calls by the first equal operand
     let canon: Vec<usize> = (0..pool.len()).map(|i| (0..=i).find(|&k| snapshot[k] == snapshot[i]).unwrap()).collect();
     let mut memo: HashMap<(usize, usize, usize), MP> = HashMap::new();
@@ -291,6 +338,19 @@ pub fn c12(case: &Case, obs: &mut Obs) -> Result<(), Failure> {
     for (step, &(opi, i, j, place)) in calls.iter().enumerate() {
         let op = OPS[opi];
         let budget = event_bound(n_edges(&pool[i], &pool[j]));
+        if place == 3 && f32_ok {
+            obs.class("f32-call-before-f64-call");
+            let r32 = run_op(Prec::F32, Pairing::MM, &pool[i], &pool[j], op).map_err(|p| panic_failure(&format!("f32 {}", op_name(op)), &p))?;
+            match memo32.get(&(opi, i, j)) {
+                Some(first) if bits_of(first) != bits_of(&r32) => {
+                    return Err(Failure::new("nondeterministic", format!("f32 call {} ({} #{} #{}) returned {} but the first such call returned {}", step, op_name(op), i, j, mp_to_text(&r32), mp_to_text(first))));
+                }
+                Some(_) => {}
+                None => {
+                    memo32.insert((opi, i, j), r32);
+                }
+            }
+        }
         let r = match place {
             1 => {
                 obs.class("fresh-thread");
